@@ -33,7 +33,7 @@ FAULTS_V3 = ["error_packet", "hs_drop_all", "hs_drop_some", "hs_error", "hs_garb
 
 
 def run(plan):
-    s = Session(plan, max_iterations=3000)
+    s = Session(plan, max_iterations=3000 + 12 * plan.get("presends", 0))
     w = s.world
     dev = s.dev
     res = Result()
@@ -129,6 +129,15 @@ def run(plan):
                 return
         frame = w.ns.command.GetStateCommand().tobytes().hex()
         last_failed = [True]
+        if plan.get("lifetime") is not None:
+            ac.set_max_connection_lifetime(plan["lifetime"])
+        for i in range(plan.get("presends", 0)):
+            # a long-lived connection: many plain exchanges before the fault (packet counter near its rollover)
+            try:
+                await ac._lan.send(bytes.fromhex(frame), retries=1)
+            except Exception as e:
+                res.fail(f"plain exchange {i} raised {type(e).__name__}", repr(e))
+                return
         for fx in plan["faults"]:
             kind = fx["kind"]
             r = fx.get("r", 3)
@@ -328,13 +337,26 @@ def gen_plan(j, rng, kinds=None):
     else:
         for _ in range(rng.choice([1, 1, 2])):
             faults.append(gen_fault(rng, version))
-    return {"config": {"version": version, "token": rand_bytes(rng, 64).hex(), "key": rand_bytes(rng, 32).hex(),
-                       "device_id": rng.getrandbits(48)},
-            "faults": faults, "settle": rng.choice([0, 0, 0.01, 8.0])}
+    p = {"config": {"version": version, "token": rand_bytes(rng, 64).hex(), "key": rand_bytes(rng, 32).hex(),
+                    "device_id": rng.getrandbits(48)},
+         "faults": faults, "settle": rng.choice([0, 0, 0.01, 8.0])}
+    if rng.random() < 0.25:
+        p["lifetime"] = rng.choice([2, 5, 30])
+    return p
 
 
 def space(tier):
     sp = Space(ID)
+
+    def rollover(j, rng):
+        # the retry contract when the V3 packet counter rolls over exactly at the retransmitted request
+        p = gen_plan(j, rng, ["timing"])
+        p["config"]["version"] = 3
+        p["presends"] = 4090 + (j % 8)
+        p["faults"][0].update({"api": "send", "r": 3, "net": [{"drop": True}, {}, {}]})
+        p.pop("lifetime", None)
+        return p
+    sp.add("rollover_retry", 8 if tier == "quick" else 64, rollover)
     sp.add("fault_free", 200 if tier == "quick" else 5000,
            lambda j, rng: dict(gen_plan(j, rng), faults=[]))
 
@@ -355,6 +377,7 @@ def space(tier):
         return gen_plan(j, rng, [a, b])
     sp.add("fault_pairs", len(pairs) * (10 if tier == "quick" else 600), pairs_fn)
     sp.add("random", 10000 if tier == "quick" else 300_000, gen_plan)
+
     return sp
 
 
